@@ -37,7 +37,7 @@ CLAIMED = {
         "DESIGN.md §4 C06",
     ),
     "C07": (
-        "Model-ledger stateful testing on a constant-product pair, a two-asset stableswap pair, a trio and a vault: histories of swaps / loans / collections (by anyone, repeated, with pending amounts zero, <= 1000 and above) / liquidity changes / fee changes; every swap's reported amounts are treated as claims and validated against independently observed balance, circulating-supply and ledger deltas; pending == charged - transferred after every step; a collection moves exactly the pending amounts to the configured collector and nobody else and leaves reserves unchanged; all-time counters equal the sums of charges. The 3-pool worlds use native denoms of which one is a proper prefix of another (uaaa / uaaab), so ledger look-ups by identifier are exercised on prefix-related assets.",
+        "Model-ledger stateful testing on a constant-product pair, a two-asset stableswap pair, a trio and a vault: histories of swaps / loans / collections (by anyone, repeated, with pending amounts zero, <= 1000 and above) / liquidity changes / fee changes; every swap's reported amounts are treated as claims and validated against independently observed balance, circulating-supply and ledger deltas; pending == charged - transferred after every step; a collection moves exactly the pending amounts to the configured collector and nobody else and leaves reserves unchanged; all-time counters equal the sums of charges. The pool worlds use native denoms of which one is a proper prefix of another (uaaa / uaaab), so ledger look-ups by identifier are exercised on prefix-related assets; after every step the ledgers are also asked in every combination of the queries' optional fields (asset_id None / each asset x all_time None / false / true, BurnedFees with and without a filter) and the asked asset's entry must equal the unfiltered answer's.",
         "Closed-world supply for native denoms (sum over all accounts and contracts created by the harness). cw-multi-test as the chain.",
         "stateful property testing with an explicit reference ledger",
         "DESIGN.md §4 C07",
@@ -109,7 +109,7 @@ CLAIMED = {
         "DESIGN.md §4 C17",
     ),
     "C18": (
-        "Stateful property testing of every write path of every bounded parameter: generated sequences of instantiations and updates (factory create, factory-mediated update, direct instantiation of the child code; distributor / lair / collector instantiate and UpdateConfig; trio ramps with block advances) with values placed on, one 18-decimal atomic inside and outside each bound (single share and fee sums at 1 -/+ 1e-18, grace 0/1/30/31, duration one day -/+ 1 ns, amp 0/1/10^6/10^6+1, growth and take rate 1 -/+ 1e-18, 0..3 bonding assets incl. a cw20); after every step the Config (and PairInfo) of every contract created so far is read back and checked against the documented bounds, including 'grace never decreases'; a rejected write must leave the world snapshot unchanged.",
+        "Stateful property testing of every write path of every bounded parameter: generated sequences of instantiations and updates (factory create, factory-mediated update, direct instantiation of the child code; distributor / lair / collector instantiate and UpdateConfig; trio ramps with block advances) with values placed on, one 18-decimal atomic inside and outside each bound (single share and fee sums at 1 -/+ 1e-18, grace 0/1/30/31, duration one day -/+ 1 ns, amp 0/1/10^6/10^6+1, growth and take rate 1 -/+ 1e-18, 0..3 bonding assets incl. a cw20); after every step the Config (and PairInfo) of every contract created so far is read back and checked against the documented bounds, including 'grace never decreases'; a rejected write must leave the world snapshot unchanged. A vault over a token-factory asset can only exist in the token-factory build: a second part (harness_tf, vault compiled with the cargo feature osmosis_token_factory, over cosmwasm_std mocks) instantiates such vaults and plain ones with token-factory or cw20 LP and sends up to three UpdateConfig messages, fee triples on / around every bound, reading Config back after every write: each share and the sum below 100 %, no burn fee on a token-factory asset, a rejected update leaves the fees unchanged.",
         "Token-factory vault assets are recognised by the factory/ prefix; in the default build such a vault cannot be created at all (its cw20 LP symbol is invalid), so that clause is exercised only as 'cannot exist'.",
         "stateful property testing with boundary-value generators and a read-back invariant",
         "DESIGN.md §4 C18",
@@ -167,8 +167,8 @@ def main():
         }, {
             "name": "wwcheck_tf",
             "path": "/verif/harness_tf",
-            "serves_properties": ["C17"],
-            "kind_free_text": "Rust binary sharing engine.rs with wwcheck; links pair and 3-pool with the cargo feature osmosis_token_factory and drives their entry points over cosmwasm_std::testing mocks; run by ./check after wwcheck for the properties it serves, merging its coverage into the same evidence file",
+            "serves_properties": ["C17", "C18"],
+            "kind_free_text": "Rust binary sharing engine.rs with wwcheck; links pair, 3-pool and vault with the cargo feature osmosis_token_factory and drives their entry points over cosmwasm_std::testing mocks; run by ./check after wwcheck for the properties it serves, merging its coverage into the same evidence file",
         }],
         "checks": checks,
         "not_applicable": na,
